@@ -250,14 +250,20 @@ def wf_grid(rng, native=False, n_row=None):
             grid.append(line)
         if n_col and rng.random() < 0.25:
             # a line with a blank name cell ends the columns: it and everything after it is comment
-            grid.append([rng.choice(["", " ", None] if native else ["", " "]), "comment", "more", "x"])
+            grid.append([rng.choice(["", " ", None] if native else ["", " "])] +
+                        ([rng.choice(["comment", 7, 0.5, False, datetime.datetime(2024, 1, 15)]) for _ in range(3)]
+                         if native else ["comment", "more", "x"]))
             for _ in range(rng.randint(0, 2)):
                 grid.append([rng.choice(["note", "zz"]), rng.choice(["-", "text", "kg"])]
                             + [rng.choice(WF_SPELL["num"]) for _ in range(rng.randint(0, n_row + 1))])
     else:
         nrow = [pad(n) for n in names]
         if rng.random() < 0.3:
-            nrow += [rng.choice(["", " ", None] if native else ["", " "]), "comment", "more"]
+            # everything after the first blank cell of the name row is comment — whatever it is (in a native grid a
+            # revision number, a date stamp, a flag typed next to the header)
+            nrow += [rng.choice(["", " ", None] if native else ["", " "])] + \
+                    ([rng.choice(["comment", 3, 2.5, True, datetime.datetime(2024, 1, 15), None]) for _ in range(rng.randint(1, 3))]
+                     if native else ["comment", "more"])
         grid.append(nrow)
         grid.append([pad(u) for u in units] + [""] * rng.randint(0, 2))
         for r in data:
